@@ -37,8 +37,6 @@ Signer ==
     /\ (R.signok = 1 /\ R.verifyok = 0) => Bad("signer:signed-message-does-not-verify" \o (IF R.ingrace THEN "-in-grace" ELSE ""))
     /\ (R.signok = 0 /\ R.exp > 0) => PrintT(<<"VERIF-DRIFT", l, "unexpired-signer-refuses">>)
     /\ R.verifyother = 1 => PrintT(<<"VERIF-DRIFT", l, "verifier-bound-to-other-ia-accepts">>)
-    /\ (rule = "" /\ R.ingrace /\ R.exp # Min2(Min2(Min2(ChainExp(Certs, R.chain), latest.nb + latest.grace), pred.na), latest.na))
-          => PrintT(<<"VERIF-DRIFT", l, "grace-expiry-beyond-latest-trc-validity">>)
     /\ nsig' = nsig + (IF rule = "" THEN 1 ELSE 0)
     /\ ngrace' = ngrace + (IF rule = "" /\ R.ingrace THEN 1 ELSE 0)
     /\ nexpired' = nexpired + (IF R.exp < 0 /\ R.signok = 0 THEN 1 ELSE 0)
